@@ -17,14 +17,14 @@ open Rs1090 Rs1090.Model Rs1090.Model.Message
     in the message object or in a nested Comm-B register object. -/
 theorem accepted_in_range (bs : List Nat) (j : Json) (h : tryFrom bs = .ok (.json j)) :
     j.inRange = true := by
-  obtain ⟨kvs, e, _, _, hr⟩ := tryFrom_good bs _ h
+  obtain ⟨kvs, e, _, _, hr, _⟩ := tryFrom_good bs _ h
   cases e
   simpa [Json.inRange] using hr
 
 /-- no reported number is NaN or infinite: every `num n d` node has `d ≠ 0` (the symbolic
     `hypot` / `atan2deg` nodes are finite by the assumption on libm, DESIGN §4) -/
 theorem numbers_finite (bs : List Nat) (j : Json) (h : tryFrom bs = .ok (.json j)) : j.wf = true := by
-  obtain ⟨kvs, e, hn, hw, _⟩ := tryFrom_good bs _ h
+  obtain ⟨kvs, e, hn, hw, _, _⟩ := tryFrom_good bs _ h
   cases e
   simp only [Json.wf, Bool.and_eq_true, decide_eq_true_eq]
   exact ⟨hw, hn⟩
